@@ -2,7 +2,8 @@
 From Coq Require Import List NArith ZArith Lia.
 From YV Require Import Base.Wire Model.CodedCpp Model.Binary.
 From YV Require Import Proofs.BinaryProofs Proofs.ProtocolProofs Proofs.CodedCppOut Proofs.CodedCppIn Proofs.Truncation.
-From YV Require Import Proofs.CodedCppRoundtrip.
+From YV Require Import Proofs.CodedCppRoundtrip Model.CppLayout Model.CppTyped Proofs.CppTypedProofs
+  Model.CppReadProg Proofs.CppReadProofs Model.CppTypedRead Proofs.CppTypedReadProofs.
 From YV Require Import Model.CodedPy Proofs.CodedPyIn Proofs.CodedPyOut Proofs.CodedPyRoundtrip Model.PyTyped Proofs.PyTypedProofs
   Model.PyReadProg Proofs.PyReadProofs Model.PyTypedRead Proofs.PyTypedReadProofs.
 Import ListNotations.
@@ -40,6 +41,49 @@ Theorem C01_cpp_stream_roundtrip : forall b1 b2 ops, (10 <= b1)%nat -> (0 < b2)%
                  rrun b2 (cin_init (concat chunks)) (creads_of ops ++ [RVerify]) = map Ok (cvalues_of ops) ++ [Ok VUnit].
 Proof. exact cpp_stream_roundtrip. Qed.
 Print Assumptions C01_cpp_stream_roundtrip.
+
+(* The typed layer of the generated C++ writers as a program over the coded stream (Model.CppTyped.cpp_wops: the calls
+   serializers.h and the generated Write functions make, memcpy fast paths included - compared call by call with the log of an
+   instrumented coded_stream.h on every run): the bytes the calls denote are the encoding of the value ... *)
+Theorem C01_cpp_typed_calls_denote_encoding : forall t v, has_type t v = true -> vsmall v = true ->
+  concat (map wbytes (cpp_wops t v)) = enc t v.
+Proof. exact cpp_wops_bytes. Qed.
+Print Assumptions C01_cpp_typed_calls_denote_encoding.
+
+(* ... so, through CodedOutputStream with ANY buffer size >= 10, what reaches the ostream is that encoding *)
+Theorem C01_cpp_typed_writer_bytes : forall bufsize t v, (10 <= bufsize)%nat -> has_type t v = true -> vsmall v = true ->
+  exists chunks, wfinish bufsize (cpp_wops t v) = Ok chunks /\ concat chunks = enc t v.
+Proof. exact cpp_typed_writer_bytes. Qed.
+Print Assumptions C01_cpp_typed_writer_bytes.
+
+(* reader programs behave over the buffered C++ stream exactly as over the byte list, for every program and buffer size
+   (malformed varints excepted: shifting past the accumulator is undefined behaviour in C++) *)
+Theorem C01_cpp_reader_programs_refine : forall A bufsize (p : cprog A) s, (0 < bufsize)%nat -> Inv bufsize s ->
+  match arun_c p (pending s) with
+  | CVal a r => exists s', mrun_c bufsize p s = CMVal a s' /\ Inv bufsize s' /\ pending s' = r
+  | CEnd => mrun_c bufsize p s = CMStop Eof
+  | CBad => mrun_c bufsize p s = CMBad
+  | CMalformed => True
+  | CNotFinished => mrun_c bufsize p s = CMStop (Fault NotFinished)
+  end.
+Proof. exact cprog_refines. Qed.
+Print Assumptions C01_cpp_reader_programs_refine.
+
+(* the typed C++ reader (Model.CppTypedRead.cpp_read: the calls serializers.h and the generated Read functions make, fast paths
+   included, compared call by call and value by value with the log of the instrumented coded_stream.h on every run) reads back
+   the encoding of every well-typed value *)
+Theorem C01_cpp_read_roundtrip : forall t v rest, has_type t v = true -> vsmall v = true ->
+  arun_c (cpp_read t) (enc t v ++ rest) = CVal v rest.
+Proof. exact cpp_read_roundtrip. Qed.
+Print Assumptions C01_cpp_read_roundtrip.
+
+(* END TO END for generated C++: typed writer -> CodedOutputStream (any buffer >= 10) -> bytes -> CodedInputStream (any
+   buffer > 0) -> typed reader returns exactly the value written and leaves exactly what followed it *)
+Theorem C01_cpp_typed_roundtrip : forall b1 b2 t v rest, (10 <= b1)%nat -> (0 < b2)%nat -> has_type t v = true -> vsmall v = true ->
+  exists chunks s', wfinish b1 (cpp_wops t v) = Ok chunks /\
+                    mrun_c b2 (cpp_read t) (cin_init (concat chunks ++ rest)) = CMVal v s' /\ pending s' = rest.
+Proof. exact cpp_typed_roundtrip. Qed.
+Print Assumptions C01_cpp_typed_roundtrip.
 
 (* the buffered Python writer (_binary.py CodedOutputStream) hands the underlying stream exactly the bytes its operations
    denote, for every buffer size >= 10, and the operations generated code uses never raise *)
